@@ -436,6 +436,134 @@ class ForestRoundTrip(Contract):
         return "forest %s -> %s, %s on arch %r written and re-read" % (inputs["T"], inputs["C"], inputs["U"], inputs["arch"])
 
 
+VARIANT_RECORD_FIELDS = ("id", "uid", "name", "type", "arches")
+LP_RELEASE_FIELDS = ("name", "version", "short", "type")
+
+
+class VariantReaderValid(Contract):
+    """composeinfo Variant.deserialize(variants, uid) on the record of a top-level variant that is valid except for ONE corruption:
+    field k of the record (k in id, uid, name, type, arches) or -- for a 'layered-product' variant -- field k of its embedded release
+    section replaced by an arbitrary JSON value.  A normal return means the loaded variant (and its embedded release) satisfies every
+    documented rule (C07)."""
+
+    def __init__(self, src, T, where, k):
+        self.src, self.T, self.where, self.k = src, T, where, k
+        self.name = "productmd.composeinfo.Variant.deserialize[%s.%s corrupted]" % (where, k)
+        self.key = "de:composeinfo.Variant:%s:%s" % (where, k)
+
+    def setup(self, E):
+        from .sections import _sv_fields
+        ci = E.instantiate(("composeinfo", "ComposeInfo"))
+        ci.fields["header"].fields["version"] = "%d.%d" % self.T.VERSION
+        v = E.instantiate(("composeinfo", "Variant"), [ci])
+        vid = SV(sym.Val.VStr(z3.Const("rec.id", sym.S)))
+        name = SV(sym.Val.VStr(z3.Const("rec.name", sym.S)))
+        arch = SV(sym.Val.VStr(z3.Const("rec.arch", sym.S)))
+        E.assume(And(sym.in_lang(vid, ID), Not(eq(name, "")), Not(eq(arch, ""))))
+        layered = self.where == "release"
+        typ = "layered-product" if layered else SV(sym.Val.VStr(z3.Const("rec.type", sym.S)))
+        if not layered:
+            E.assume(And(sym.isin(typ, self.T.VARIANT_TYPES), Not(eq(typ, "layered-product"))))
+        good = {"id": vid, "uid": vid, "name": name, "type": typ, "arches": [arch]}
+        bad = SV(z3.Const("corrupt.%s" % self.k, sym.Val))
+        E.assume(concretise.json_value(bad))
+        if self.k == "arches":
+            # the empty list, or a JSON scalar other than a string (a string / object / list of arbitrary content in place of the
+            # arch list is iterated by set(): bounded stand-in only)
+            E.assume(And(Not(sym.is_ref(bad)), Not(is_str(bad))))
+            if E.decide(E.fresh("arches_empty_list", z3.BoolSort())):
+                bad = []
+        rec = E.models.new_dict("record")
+        for a in VARIANT_RECORD_FIELDS:
+            rec.entries.append(Entry(a, True, bad if (self.where == "record" and a == self.k) else good[a]))
+        rec.entries.append(Entry("paths", True, E.models.new_dict("paths")))
+        rf = None
+        if layered:
+            gr = Obj(("composeinfo", "Release"), "good", 0)
+            rf = _sv_fields(E, gr, list(LP_RELEASE_FIELDS), "rel")
+            gr.fields["is_layered"] = True
+            gr.fields["internal"] = False
+            E.assume(F.valid_release(self.T, gr))
+            E.assume(sym.isin(rf["type"], self.T.RELEASE_TYPES))       # canonical lower-case spelling in the uncorrupted record
+            rs = E.models.new_dict("release")
+            for a in LP_RELEASE_FIELDS:
+                rs.entries.append(Entry(a, True, bad if a == self.k else rf[a]))
+            rs.entries.append(Entry("is_layered", True, True))
+            rec.entries.append(Entry("release", True, rs))
+        doc = E.models.new_dict("variants")
+        doc.entries.append(Entry(vid, True, rec))
+        return {"v": v, "doc": doc, "uid": vid, "good": good, "bad": bad, "rf": rf}
+
+    def call(self, E, st):
+        return E.call(E.getattr_(st["v"], "deserialize"), [st["doc"], st["uid"]])
+
+    def post(self, E, st, out):
+        if out.kind == "raise":
+            return {"loaded_variant_is_valid": True}
+        v = st["v"]
+        ar = v.fields["arches"]
+        am = ar.items if isinstance(ar, ListSet) else (list(ar) if isinstance(ar, (set, frozenset, list)) else None)
+        f = dict((a, v.fields[a]) for a in ("id", "uid", "name", "type"))
+        ok = And(valid_variant(self.T, f, None), am is not None and len(am) > 0)
+        cl = {"loaded_variant_is_valid": ok}
+        if self.where == "release":
+            cl["embedded_release_is_valid"] = F.valid_release(self.T, v.fields["release"])
+        return cl
+
+    def concretise(self, model, st):
+        def val(x):
+            return [val(y) for y in x] if isinstance(x, list) else concretise.value_of(model, x)
+        rec = dict((a, val(x)) for a, x in st["good"].items())
+        rec["paths"] = {}
+        if self.where == "record":
+            rec[self.k] = val(st["bad"])
+        else:
+            rec["release"] = dict((a, val(x)) for a, x in st["rf"].items())
+            rec["release"]["is_layered"] = True
+            rec["release"][self.k] = val(st["bad"])
+        return {"uid": val(st["uid"]), "record": rec}
+
+    def sample_inputs(self, rng):
+        for bad in (None, "", 0, 1.5, [], {}, "a-b", "bogus", ["x86_64", 3], True, "A B"):
+            rec = {"id": "Server", "uid": "Server", "name": "Server", "type": "variant", "arches": ["x86_64"], "paths": {}}
+            if self.where == "record":
+                rec[self.k] = bad
+            else:
+                rec["type"] = "layered-product"
+                rec["release"] = {"name": "LP", "version": "1.0", "short": "lp", "type": "ga", "is_layered": True}
+                rec["release"][self.k] = bad
+            yield {"uid": "Server", "record": rec}
+
+    def native_eval(self, inputs):
+        CI = self.src.mods["composeinfo"]
+        ci = CI.ComposeInfo()
+        ci.header.set_current_version()
+        v = CI.Variant(ci)
+        uid = inputs["uid"]
+        nat = native_call(v.deserialize, {uid: copy.deepcopy(inputs["record"])}, uid)
+        if nat[0] == "raise":
+            return nat, {"loaded_variant_is_valid": True}
+        ok = True
+        try:
+            v.validate()
+        except Exception:
+            ok = False
+        cl = {"loaded_variant_is_valid": ok}
+        if self.where == "release":
+            rok = True
+            try:
+                v.release.validate()
+            except Exception:
+                rok = False
+            cl["embedded_release_is_valid"] = rok
+        return nat, cl
+
+    def describe(self, inputs):
+        return "composeinfo Variant.deserialize({%r: %s}, %r)" % (inputs["uid"], concretise.py_repr(inputs["record"]), inputs["uid"])
+
+
 def contracts(src, T):          # noqa: F811
     return [VariantAdd(src, T, "Variants", 0), VariantAdd(src, T, "Variants", 1), VariantAdd(src, T, "Variant", 0), VariantAdd(src, T, "Variant", 1),
-            GetItem(src, T), ForestRoundTrip(src, T, False), ForestRoundTrip(src, T, True)]
+            GetItem(src, T), ForestRoundTrip(src, T, False), ForestRoundTrip(src, T, True)] + \
+        [VariantReaderValid(src, T, "record", k) for k in VARIANT_RECORD_FIELDS] + \
+        [VariantReaderValid(src, T, "release", k) for k in LP_RELEASE_FIELDS]
